@@ -189,13 +189,13 @@ def main(argv=None):
     missing = []
     if not a.jobs:
         for s in getattr(mod, "SAMPLES", []):
-            rp = _replay(mod.__name__, s["fn"], s.get("params"), repr(s["args"]), suppress_known=True, coverage=True, direct=bool(s.get("direct")))
+            rp = _replay(s.get("module", mod.__name__), s["fn"], s.get("params"), repr(s["args"]), suppress_known=True, coverage=True, direct=bool(s.get("direct")))
             covered.update(rp.get("covered") or [])
             samples_out.append({"harness": s["fn"], "params": s.get("params"), "args": s["args"], "verdict": "held" if rp.get("held") else f"failed:{rp.get('reason')}", "note": s.get("note", "")})
             if rp.get("held") is not True and not s.get("expect_fail"):
                 # a sample is a plain concrete run: failing means a violation that the symbolic run should also see
                 if rp.get("held") is False:
-                    path = _write_replay(pid, {"module": mod.__name__, "fn": s["fn"], "params": s.get("params"), "name": "sample"}, s["args"], rp)
+                    path = _write_replay(pid, {"module": s.get("module", mod.__name__), "fn": s["fn"], "params": s.get("params"), "name": "sample"}, s["args"], rp)
                     if not any(v[1] == rp.get("reason") for v in violations):
                         violations.append(("sample:" + s["fn"], rp.get("reason"), path))
                 else:
